@@ -60,6 +60,8 @@ fn trace(a: &[String]) {
             g_trap(&mut w, &mut r4, if thorough { 150 } else { 20 });
             let mut r5 = Rng::new(seed, "matrix", shard);
             g_matrix(&mut w, &mut r5, if thorough { 12 } else { 2 });
+            let mut r8 = Rng::new(seed, "long", shard);
+            g_long(&mut w, &mut r8, if thorough { 1500 } else { 500 });
             let mut r7 = Rng::new(seed, "immobile", shard);
             g_immobile(&mut w, &mut r7, if thorough { 200 } else { 30 });
             let mut r6 = Rng::new(seed, "illegal", shard);
